@@ -517,8 +517,7 @@ Section ClassComplete.
       + apply in_map_iff in Hx as (r0 & <- & Hr0). apply Present. apply Hreq. exact Hr0.
       + apply in_flat_map in Hx as (d & Hd & Hx).
         destruct (fd_default d) as [dv|] eqn:Ed; [|contradiction Hx].
-        destruct (str_in (rename (smap (c_name c)) (fd_name d)) (map (rename (smap (c_name c))) (c_required c)));
-          [contradiction Hx|].
+        destruct (str_in (fd_name d) (c_required c)); [contradiction Hx|].
         destruct Hx as [<-|[]]. apply Present. apply Hdef; [exact Hd | rewrite Ed; discriminate].
     - (* additionalProperties: every serialized key is a declared property *)
       apply orb_true_iff. right. apply forallb_forall. intros q Hq.
